@@ -30,8 +30,8 @@ def cell_sort_key(c, tolerant):
             if f != f:
                 return ("l:float64", None)
             return ("l:float64", T.float_key6(c["v"]) if tolerant and f not in (float("inf"), float("-inf")) else Fraction(f) if f not in (float("inf"), float("-inf")) else f)
-        if t == "text":
-            return ("l:text", bytes.fromhex(c.get("v", "")))
+        if t in ("text", "blob"):
+            return ("l:" + t, bytes.fromhex(c.get("v", "")))
         return ("l:" + t, bytes.fromhex(c.get("str", "")))
     if k == "t":
         return ("t", int(c["ns"]))
@@ -112,7 +112,7 @@ def sort_item(c):
         ids = T.binding_ids([c["in"], c["out"] or []], extra=[k["b"] for k in c["cfg"] or []])
         cfg = "None" if c["nilcfg"] else "(Some %s)" % T.keys_term(c["cfg"] or [], ids)
         out = None if c["outcome"] != "ok" else t.rowlist(c["out"], ids)
-        return "sort_verdict %s %s %s" % (cfg, t.rowlist(c["in"], ids), T.opt(out))
+        return "sort_verdict " + T.VM + " %s %s %s" % (cfg, t.rowlist(c["in"], ids), T.opt(out))
     return f
 
 
@@ -160,7 +160,7 @@ def e2e_item(c):
         pd = "None" if c.get("pd_mask") is None else "(Some [%s])" % "; ".join("true" if b else "false" for b in c["pd_mask"])
         exact = "false" if c["shape"] == "two-clause" else "true"
         r = None if res["outcome"] != "ok" else t.rowlist(res.get("rows") or [], ids)
-        return "e2e12_verdict %s %s %s %s %s %s %s %s" % (outs, keys, seen, lim, pd, exact, t.rowlist(base, ids), T.opt(r))
+        return "e2e12_verdict " + T.VM + " %s %s %s %s %s %s %s %s" % (outs, keys, seen, lim, pd, exact, t.rowlist(base, ids), T.opt(r))
     return f
 
 
